@@ -514,7 +514,11 @@ func (c *Ctx) genC19() {
 				if clash {
 					continue
 				}
-				w.putService(id, ent, c.chance(0.85), c.chance(0.08), faults())
+				pf := faults()
+				if c.chance(0.3) { // an I/O error exactly on the read of the previous record, or on the write
+					pf = [][]string{{"e"}, {"e", "k"}, {"k", "e"}}[c.rng.Intn(3)]
+				}
+				w.putService(id, ent, c.chance(0.85), c.chance(0.08), pf)
 			case 5:
 				w.deleteService(c.pick("svc1", "svc2"), faults())
 			case 6:
